@@ -193,12 +193,20 @@ func execScript(s *scriptScn) *scriptObs {
 		return actRes{Kind: "ok"}
 	}
 	waits := map[int]func() actRes{}
+	lost := [2]map[uint32]bool{{}, {}}        // ids whose Open act hung, panicked or failed
+	stale := [2]map[uint32][]net.Conn{{}, {}} // earlier connection objects of an id that was opened again
 	for i, a := range s.Acts {
 		a := a
 		side := a.Side
 		var r actRes
 		cn := conns[side][a.ID]
 		needConn := func() bool {
+			if cn == nil && lost[side][a.ID] {
+				// the Open that should have produced this connection hung or failed: that is the observation;
+				// what depends on it cannot be executed
+				r = actRes{Kind: "skipped"}
+				return false
+			}
 			if cn == nil {
 				r = actRes{Kind: "none", Err: "harness: connection not opened"}
 				o.Fail = fmt.Sprintf("act %d (%s): id %d not opened on side %d", i, a.Op, a.ID, side)
@@ -272,6 +280,8 @@ func execScript(s *scriptScn) *scriptObs {
 		case "join":
 			if w := waits[a.N]; w != nil {
 				r = w()
+			} else if a.N >= 0 && a.N < i && o.Res[a.N].Kind == "skipped" {
+				r = actRes{Kind: "skipped"}
 			} else {
 				r = actRes{Kind: "none", Err: "harness: nothing to join"}
 				o.Fail = fmt.Sprintf("act %d: join of %d which is not a background act", i, a.N)
@@ -333,6 +343,7 @@ func execScript(s *scriptScn) *scriptObs {
 		case "open":
 			// Open at any moment, also on a Mux that has closed
 			m := muxes[side]
+			got := make(chan net.Conn, 1)
 			r = bounded(func() actRes {
 				c0, err := m.Open(multiplex.ConnID(a.ID))
 				if err != nil {
@@ -341,9 +352,39 @@ func execScript(s *scriptScn) *scriptObs {
 				if c0 == nil {
 					return actRes{Kind: "err", Err: "Open returned nil, nil"}
 				}
-				conns[side][a.ID] = c0
+				got <- c0
 				return actRes{Kind: "ok"}
 			})
+			if r.Kind == "ok" {
+				c0 := <-got
+				if old := conns[side][a.ID]; old != nil && old != c0 {
+					stale[side][a.ID] = append(stale[side][a.ID], old) // a new object: the old handle is stale
+				}
+				conns[side][a.ID] = c0
+			} else if a.ID != 0 {
+				lost[side][a.ID] = true
+				if r.Kind == "timeout" || r.Kind == "panic" {
+					delete(conns[side], a.ID)
+				}
+			}
+		case "staleclose":
+			// Close once more on the most recent stale handle of the id
+			hs := stale[side][a.ID]
+			switch {
+			case len(hs) > 0:
+				h := hs[len(hs)-1]
+				r = bounded(func() actRes {
+					if err := h.Close(); err != nil {
+						return classify(err)
+					}
+					return actRes{Kind: "ok"}
+				})
+			case lost[side][a.ID]:
+				r = actRes{Kind: "skipped"}
+			default:
+				r = actRes{Kind: "none", Err: "harness: no stale handle"}
+				o.Fail = fmt.Sprintf("act %d: no stale handle of id %d on side %d (Open returned the old object?)", i, a.ID, side)
+			}
 		case "openrace":
 			// a.N goroutines open the ids a.ID, a.ID+1, … while another one closes the Mux
 			m := muxes[side]
